@@ -8,6 +8,8 @@ import I2N.Extracted.GenRules
 import I2N.Lemmas.PyGenList
 import I2N.Extracted.GenRunner
 import I2N.Lemmas.RunnerGen
+import I2N.Model.TravStep
+import I2N.Lemmas.Trav
 namespace I2N.Props.C10
 deriving instance DecidableEq for Except
 open I2N.Rules I2N.Extracted.Rules I2N.Lemmas.Rules
@@ -827,6 +829,38 @@ theorem settle_never_keeps_placeholder (results : List Result) (job : List JobRe
 example : ∃ job', (genPolls (fun _ => []) "t" "1" (unknownOf "t") 0 genStatusTimeout).run ⟨[unknownOf "t"], [], "1"⟩ =
     .ok ("error", ⟨[unknownOf "t"], job', "1"⟩) ∧ lookupJob job' "t" "1" = none :=
   placeholder_stays_when_unreported (fun _ => []) "t" "1" (fun _ => rfl) _ 0 ⟨[unknownOf "t"], [], "1"⟩ rfl
+
+/-! ### The traversal model's `startTest` against the generated first segment
+
+`Trav.Result` carries a ghost tag and a uid; `toRules` forgets them (an UNKNOWN placeholder has no `time_elapsed`). -/
+
+/-- adapter between the two result types (explicit: the traversal model is structured differently) -/
+def toRules (r : I2N.Trav.Result) : Result :=
+  { name := r.name, status := r.status, time := if r.status == "UNKNOWN" then none else some r.dur }
+
+/-- **`Trav.startTest` (test proper: phase plain or main) is the generated first segment of `run_test_node`** run on
+the node copy's state: the uid stored in the worker's program counter is the uid the source computes from the number of
+shared results, the results of the copy afterwards are — through `toRules` — the results the source leaves (placeholder
+appended before the suspension), and the step ends in the suspension.  Hypotheses: `n` / `w` are indices of the state. -/
+theorem startTest_matches_source (g : I2N.Trav.Graph) (s : I2N.Trav.State) (n w : Nat) (ph : I2N.Trav.Phase)
+    (dir : I2N.Trav.Dir) (hph : ph ≠ .pre) (hn : n < s.nodes.length) (hw : w < s.workers.length) :
+    ∃ fr st', (genRunBefore (g.node n).name (I2N.Trav.sharedResults g s n).length).run
+          { results := (s.nd n).results.map toRules, job := [], pfx := (g.node n).pfx } = .ok (fr, st') ∧
+      ((I2N.Trav.startTest g s n w ph dir).1.wd w).pc = .test n ph dir fr.2.2.1 s.nextTag 0 ∧
+      ((I2N.Trav.startTest g s n w ph dir).1.nd n).results.map toRules = st'.results ∧
+      (∃ evs, (I2N.Trav.startTest g s n w ph dir).2 = (evs, .suspend)) := by
+  have hp : (ph == I2N.Trav.Phase.pre) = false := by cases ph <;> first | rfl | exact absurd rfl hph
+  refine ⟨_, _, runBefore_matches_source _ _ _, ?_, ?_, ?_⟩
+  · have hw' : s.workers[w]? = some s.workers[w] := List.getElem?_eq_getElem hw
+    simp [I2N.Trav.startTest, hp, I2N.Trav.State.setWd, I2N.Trav.State.setNd, I2N.Trav.State.wd,
+      hw', I2N.Trav.uidOf, uidOf, retryInfix]
+  · have hn' : s.nodes[n]? = some s.nodes[n] := List.getElem?_eq_getElem hn
+    simp [I2N.Trav.startTest, hp, I2N.Trav.State.setWd, I2N.Trav.State.setNd, I2N.Trav.State.nd,
+      hn', toRules, unknownOf, unknownStatus]
+  · simp only [I2N.Trav.startTest, hp, Bool.false_eq_true, if_false]
+    exact ⟨_, rfl⟩
+
+example : toRules { name := "t", status := "UNKNOWN", uid := "", tag := 3 } = unknownOf "t" := by decide
 
 end RegeneratedRunner
 
